@@ -65,7 +65,7 @@ def match_known(prop, sig):
     return None
 
 
-def sim_check(ctx, families_quick, families_thorough, per_family, assume, extra_cov=None, proof=None):
+def sim_check(ctx, families_quick, families_thorough, per_family, assume, extra_cov=None, proof=None, weights=None):
     """families_*: list of family names; per_family: (quick, thorough) scenario counts.
     proof = dict(prop_file, theorems, tf_families, tf_per_family=(q, t), note): Coq theorems over the token-flow
     model + trace validation of the real code against that model."""
@@ -82,7 +82,7 @@ def sim_check(ctx, families_quick, families_thorough, per_family, assume, extra_
     jobs = []
     for fam in fams:
         s0 = ctx.seed * 100000
-        left = n
+        left = n * (weights or {}).get(fam, 1)      # families whose interesting window is narrow get more schedules
         while left > 0:
             c = min(chunk, left)
             jobs.append((fam, s0, c))
